@@ -58,7 +58,7 @@ CLAIMED = {
             'instantiations) that has a mutating use outside its initialiser must be thread_local, std::atomic, a synchronisation object, mutated only under a '
             'scoped lock (or through methods that lock a mutex member first), or written only during static initialisation; no call into libc functions with hidden '
             'process-wide state. Independent instances can interfere only through such state, so this is a necessary condition; races on instance state and '
-            'equality of results are not decided. Known findings: rand()/srand() in proof reduction and random EUF interpolation.',
+            'equality of results are not decided.',
             'static analysis: storage-class/type rule + mutating-use dataflow over the type-checked AST of all library units, lock-scope typestate, callee summaries',
             'mutating-use classification (assignment, ++/--, non-const call, non-const reference/pointer binding or passing, accessor functions followed)'),
     'C25': ('other',
